@@ -21,6 +21,13 @@ theorem facts_wait_and_completion :
     ∧ "httpCache.Get:httpCache:1:explicit" ∈ Facts.lockSections
     ∧ Facts.proxyTimeoutAttached = true := by decide
 
+/-- Obligation on the extracted lock scopes (entry, shard, server, location registry): no method takes a mutex of
+its own object while a caller up the stack — on the same object — already holds it.  Go's mutexes are not
+re-entrant: a nested write lock blocks at once, a nested READ lock blocks as soon as a writer (a configuration
+update) queues up between the two acquisitions, and with it the fetcher that sits in the middle of a fetch. The
+model's lock is a plain owner field; this is what lets it be one. -/
+theorem facts_no_reentrant_locking : Facts.reentrantLocking = [] := by decide
+
 /-- a thread is waiting for the environment: its upstream request is in flight.  The property
 conditions on every upstream request ending (the proxy timeout turns a silent upstream into 504) -/
 def inUpstream : Pc → Bool
